@@ -1,47 +1,18 @@
-import ScrutModel.Model.Diff
+import Driver.DiffOps
+import Driver.ExecOps
+import Driver.ConfigOps
 /-! Line-protocol driver: one operation per input line, one canonical line out. -/
-open Scrut
-
 namespace Driver
-
-def parseQuant (c : Char) : Option Diff.Exp :=
-  match c with
-  | '.' => some ⟨false, false⟩
-  | '?' => some ⟨true, false⟩
-  | '*' => some ⟨true, true⟩
-  | '+' => some ⟨false, true⟩
-  | _ => none
-
-def showNats (l : List Nat) : String := ",".intercalate (l.map toString)
-
-def showDL : Diff.DL → String
-  | .matched i ls => s!"M{i}:{showNats ls}"
-  | .unmatched i => s!"U{i}"
-  | .unexpected ls => s!"X:{showNats ls}"
-
-/-- `diff <quants> <m> <bits>`: `quants` has one char per expectation, `bits` is the row-major
-    `n*m` match matrix. -/
-def opDiff (args : List String) : String :=
-  match args with
-  | [qs, ms, bits] =>
-    let qs := if qs == "-" then "" else qs
-    let bits := if bits == "-" then "" else bits
-    match qs.toList.mapM parseQuant, ms.toNat? with
-    | some exps, some m =>
-      let n := exps.length
-      let ea := exps.toArray
-      let ba := bits.toList.toArray
-      if ba.size ≠ n * m then "bad-op" else
-      let es : Nat → Diff.Exp := fun i => ea.getD i ⟨false, false⟩
-      let mt : Nat → Nat → Bool := fun i j => ba.getD (i * m + j) '0' == '1'
-      let d := Diff.diff n m es mt
-      (if Diff.hasDiff d then "D " else "S ") ++ ";".intercalate (d.map showDL)
-    | _, _ => "bad-op"
-  | _ => "bad-op"
 
 def step (line : String) : String :=
   match line.trimAscii.toString.splitOn " " with
   | "diff" :: args => opDiff args
+  | "validate" :: args => opValidate args
+  | "exec" :: args => opExec args
+  | "rundocs" :: args => opRunDocs args
+  | "tcwd" :: args => opTcWd args
+  | "dcwd" :: args => opDcWd args
+  | "effective" :: args => opEffective args
   | _ => "bad-op"
 
 partial def loop (h : IO.FS.Stream) (out : IO.FS.Stream) : IO Unit := do
